@@ -630,7 +630,7 @@ func TestC43(t *testing.T) {
 		return
 	}
 
-	rt.Check(t, rec, "scripts", 400, 2000, func(t *rapid.T) {
+	rt.Check(t, rec, "scripts", 800, 2000, func(t *rapid.T) {
 		c := genC43(t, excluded)
 		writeJSON("c43_running.json", c) // journal before running: it is the replay file if the process dies
 		msg, st := runC43(c)
